@@ -215,3 +215,32 @@ func ZvC17_RetryingCaller() {
 	vrt.PreemptBound(vrt.Pick(3, 5))
 	zvC17Concurrent([][]int{{0, 0}, {0}, {0}}, "retrying-caller")
 }
+
+// ZvC17_CleanupVsMemoize: the cache's cleanup pass (DeleteExpired, the janitor's body) runs
+// concurrently with a Memoize call that recomputes an expired value, every schedule, symbolic clock.
+// If the function was invoked, its fresh value must be in the cache afterwards: a cleanup pass that
+// judged the OLD entry expired must not remove the NEW one (which is what "once a successful value
+// is cached and until it expires, Memoize returns it without invoking" rests on).
+func ZvC17_CleanupVsMemoize() {
+	E := vrt.Int64()
+	vrt.Assume(vrt.And(E > 0, E < 1<<58))
+	m := NewMemoizer[string, int](time.Duration(E), 0)
+	v1, v2 := vrt.Int(), vrt.Int()
+	m.Memoize("a", func() (*cache.Item[int], error) { return zvItem(v1), nil })
+	calls := 0
+	vrt.ShareNoRaceCheck(m)
+	vrt.Par(func() {
+		m.Cache.DeleteExpired()
+	}, func() {
+		m.Memoize("a", func() (*cache.Item[int], error) { calls++; return zvItem(v2), nil })
+	})
+	if calls == 1 {
+		it, ok := m.Cache.List()["a"]
+		vrt.Assert(ok, "C17/cleanup/freshly-computed-value-stays-cached")
+		if ok {
+			vrt.Assert(it.Val() == v2, "C17/cleanup/cached-value-is-the-fresh-one")
+		}
+		vrt.Cover("C17/cleanup/recomputed")
+	}
+	vrt.Assert(vrt.LocksHeld() == 0, "C17/cleanup/lock-released")
+}
